@@ -128,6 +128,11 @@ def build_harness(name, link_repo=True, extra_flags=None, tag='asan', sources=No
     flags = list(CXXFLAGS) + (extra_flags or [])
     src = os.path.join(VERIF, 'harness', name + '.cpp')
     deps = [src] + (sources or [])
+    hdir = os.path.join(VERIF, 'harness')
+    for root, _, files in os.walk(hdir):
+        for f in files:
+            if f.endswith('.hpp'):
+                deps.append(os.path.join(root, f))
     hh = file_hash(deps + repo_sources()) + hashlib.sha256(' '.join(flags).encode()).hexdigest()[:6]
     bindir = os.path.join(BUILD, 'bin')
     os.makedirs(bindir, exist_ok=True)
@@ -378,7 +383,7 @@ def proof_step(ctx, module, theorems, extra_targets=None):
         ctx.proof_failure = 'forbidden construct in Lean sources: ' + hits[0]
         ctx.proof_log = '\n'.join(hits)
         return False
-    ax, out = print_axioms(module, theorems, [t for t in (extra_targets or []) if t.startswith('BinlogVerif.')])
+    ax, out = print_axioms(module, theorems, ['BinlogVerif.Generated.Consts'] + [t for t in (extra_targets or []) if t.startswith('BinlogVerif.')])
     bad = []
     for t in theorems:
         if ax[t] is None:
